@@ -9,17 +9,21 @@ MTs == {"equals", "contains", "starts-with", "ends-with", "", "bogus"}
 Texts == {"t0", "t1", "t2"}
 TMs == [text : Texts, neg : BOOLEAN, mt : MTs]
 TMsSmall == [text : {"t0", "t1"}, neg : BOOLEAN, mt : {"equals", ""}]
-ParamFs == [name : {"n3"}, isnd : {TRUE}, tm : {<< >>}]
-           \cup [name : {"n3"}, isnd : {FALSE}, tm : (IF Big THEN Seq01(TMs) ELSE {<< >>, <<[text |-> "t2", neg |-> TRUE, mt |-> "ends-with"]>>})]
-PairTMs == IF Big THEN Seq02(TMsSmall) ELSE {<<a, b>> : a \in {[text |-> "t0", neg |-> FALSE, mt |-> ""]}, b \in [text : {"t0", "t1"}, neg : BOOLEAN, mt : {"equals"}]}
-PNames == IF Big THEN {"n1", "n2"} ELSE {"n1"}
-PropFs == [name : PNames, test : Tests, isnd : {TRUE}, tms : {<< >>}, params : {<< >>}]
-          \cup [name : PNames, test : Tests, isnd : {FALSE}, tms : PairTMs \cup Seq01(TMs), params : Seq01(ParamFs)]
+ParamFsOf(b) == [name : {"n3"}, isnd : {TRUE}, tm : {<< >>}]
+                \cup [name : {"n3"}, isnd : {FALSE}, tm : (IF b THEN Seq01(TMs) ELSE {<< >>, <<[text |-> "t2", neg |-> TRUE, mt |-> "ends-with"]>>})]
+PairTMsOf(b) == IF b THEN Seq02(TMsSmall) ELSE {<<x, y>> : x \in {[text |-> "t0", neg |-> FALSE, mt |-> ""]}, y \in [text : {"t0", "t1"}, neg : BOOLEAN, mt : {"equals"}]}
+PNamesOf(b) == IF b THEN {"n1", "n2"} ELSE {"n1"}
+PropFsOf(b) == [name : PNamesOf(b), test : Tests, isnd : {TRUE}, tms : {<< >>}, params : {<< >>}]
+               \cup [name : PNamesOf(b), test : Tests, isnd : {FALSE}, tms : PairTMsOf(b) \cup Seq01(TMs), params : Seq01(ParamFsOf(b))]
+PropFs == PropFsOf(FALSE)
 PropFs2 == [name : {"n1", "n2"}, test : {"", "allof"}, isnd : {TRUE}, tms : {<< >>}, params : {<< >>}]
            \cup [name : {"n1", "n2"}, test : {"", "allof"}, isnd : {FALSE}, tms : Seq01(TMsSmall), params : {<< >>, <<[name |-> "n3", isnd |-> TRUE, tm |-> << >>]>>}]
 Selections == {<<TRUE, << >>>>, <<FALSE, << >>>>, <<FALSE, <<"n1">>>>, <<FALSE, <<"n2", "n1">>>>}
+\* the selection / query-level dimensions against the small filter universe; in thorough runs additionally every filter of
+\* the large universe (every pair of small text-matches, every text-match inside a param-filter) under one selection
 Queries == {[allprop |-> s[1], props |-> s[2], test |-> t, filters |-> f, limit |-> l] :
               s \in (IF Big THEN Selections ELSE {<<TRUE, << >>>>, <<FALSE, <<"n2", "n1">>>>}), t \in Tests, f \in Seq01(PropFs), l \in {0, 7}}
+           \cup (IF Big THEN {[allprop |-> FALSE, props |-> <<"n2", "n1">>, test |-> t, filters |-> <<f>>, limit |-> 7] : t \in {"", "anyof"}, f \in PropFsOf(TRUE)} ELSE {})
            \cup {[allprop |-> TRUE, props |-> << >>, test |-> t, filters |-> <<f, g>>, limit |-> 1] :
                    t \in {"", "allof"}, f \in {p \in PropFs2 : p.name = "n1"}, g \in {p \in PropFs2 : p.name = "n2" /\ (Big \/ p.test = "allof")}}
 Hrefs == {"h1", "h2", "h3"}
